@@ -255,3 +255,27 @@ func accessTuple(a common.Address, r *h.RNG) types.AccessTuple {
 	}
 	return t
 }
+
+// envObserve is a scenario hook making every frame record who called it, with what value and where it runs.
+func envObserve(a *h.Asm, n *node, phase int) {
+	if phase != 0 {
+		return
+	}
+	base := uint64(0x300 + 8*n.ID)
+	for k, op := range []byte{h.CALLER, h.CALLVALUE, h.ADDRESS, h.ORIGIN} {
+		a.Op(op)
+		if n.Static {
+			a.PushU(base + uint64(32*k)).Op(h.MSTORE)
+		} else {
+			a.PushU(base + uint64(k)).Op(h.SSTORE)
+		}
+	}
+}
+
+// genDualTree builds a structured call tree (all call kinds, creates, values, failing terminators) as a dual case.
+func genDualTree(seed uint64) DualCase {
+	r := h.NewRNG(seed)
+	sc := genScenario(r, scenOpts{FailPct: 30, ValuePct: 40, MinFork: h.Frontier, MaxFork: h.Shanghai, MaxNodes: 10, MaxDepth: 5, Extra: envObserve,
+		Kinds: []byte{h.CALL, h.CALL, h.DELEGATECALL, h.DELEGATECALL, h.DELEGATECALL, h.CALLCODE, h.CALLCODE, h.STATICCALL, h.CREATE, h.CREATE2}})
+	return DualCase{World: sc.World, Env: h.EnvSpec{Fork: sc.Fork}, Tx: sc.Tx, Desc: "call tree " + sc.desc()}
+}
